@@ -1,4 +1,5 @@
 import BddProofs.Compose
+import BddProofs.Total
 import BddProofs.Init
 /-! # C09 — composition substitutes a function for a variable
 
@@ -20,6 +21,16 @@ theorem C09_compose_is_ite (φf : Fn) (v : Nat) (φg : Fn) :
 theorem C09_outside_support {φf φg : Fn} {v : Nat} (h : ∀ e b, φf (upd e v b) = φf e) : Comp φf v φg = φf := by
   funext e; exact h e (φg e)
 
+/-- it terminates without panicking, storage capacity permitting: with enough fuel it returns or stops
+with "Storage is full"; it never hits an `assert!` and never runs out of fuel -/
+theorem C09_compose_terminates {V fuel v : Nat} {s : St} {f g : Ref} {φf φg : Fn} (hg : Good s) (hV : VarsLe s V)
+    (vf : Valid s.nodes f φf) (vg : Valid s.nodes g φg)
+    (hfuel : lv s V f + lv s V g + (3 * (V + 1) * (V + 2) + V) < fuel) :
+    ((∃ s' r, composeTop fuel s f v g = .ok (s', r)) ∨ (∃ s', composeTop fuel s f v g = .error (.storageFull, s'))) ∧
+    (∀ e s', composeTop fuel s f v g = .error (e, s') → e = .storageFull) :=
+  let ⟨a, _, c⟩ := composeTop_terminates (v := v) hg hV vf vg hfuel
+  ⟨a, c⟩
+
 /-- non-vacuity -/
 example : Good s4 ∧ Valid s4.nodes Ref.one (fun _ => true) ∧ ∃ s' , composeTop 3 s4 Ref.one 1 Ref.zero = .ok (s', Ref.one) :=
   ⟨s4_good, Valid.one, s4, by unfold composeTop compose; simp [isTerminal, isOne]⟩
@@ -28,3 +39,4 @@ end P
 #print axioms P.C09_compose
 #print axioms P.C09_compose_is_ite
 #print axioms P.C09_outside_support
+#print axioms P.C09_compose_terminates
